@@ -545,9 +545,17 @@ class AsyncParmapper(AsyncIterable):
 
         with executor:
 
+            def _result(fut):
+                try:
+                    return fut.result()
+                except StopIteration as e:
+                    # An `asyncio.Future` refuses this class (the waiter would wait forever);
+                    # deliver it the way a generator would.
+                    raise RuntimeError('the worker raised StopIteration') from e
+
             async def func(x, *, executor, loop, **kwargs):
                 fut = executor.submit(self._func, x, **kwargs)
-                return loop.run_in_executor(None, fut.result)
+                return loop.run_in_executor(None, _result, fut)
 
             loop = asyncio.get_running_loop()
 
